@@ -8,7 +8,7 @@
    verified checker on the implementation's sorted views. *)
 From Coq Require Import ZArith Arith Bool List Permutation.
 From Coq Require Import QArith.
-From FC Require Import Model.Scalar Model.Mesh Model.SortSpec Model.FuzzySort Model.FuzzySortAlgo Proofs.SortP Proofs.FuzzySortP Proofs.FuzzySortAlgoP.
+From FC Require Import Model.Scalar Model.Mesh Model.SortSpec Model.FuzzySort Model.FuzzySortAlgo Proofs.SortP Proofs.FuzzySortP Proofs.FuzzySortAlgoP Proofs.CornerP.
 Import ListNotations.
 Local Open Scope nat_scope.
 
@@ -89,3 +89,31 @@ Example C02_nonvacuous :
   check_noisy_sorted [[1#2]; [1#2]] 0%Q (1#100)
      [[1#1000; 1#1]; [0#1; 1#1000]; [1#1; 0#1]] [[1#1000; 0#1]; [0#1; 999#1000]; [999#1000; 1#1000]] = false.
 Proof. vm_compute. repeat split; reflexivity. Qed.
+
+(* ---- the corner order of a cell is not part of what is compared ------------------------------------------------ *)
+(* any per-cell rearrangement of the corner lists (f may be a different permutation for every cell) leaves the verdict
+   "equal": relabeled meshes may list a cell from another start corner or in the other orientation *)
+Theorem C02_corner_order_irrelevant : forall rel abs (f : list nat -> list nat) M,
+  (0 <= abs)%Q -> NoDup (cell_types M) -> (forall r, Permutation r (f r)) ->
+  mesh_equal rel abs M (map_corners f M) = true.
+Proof. exact corner_order_irrelevant. Qed.
+Print Assumptions C02_corner_order_irrelevant.
+
+Theorem C02_start_corner_irrelevant : forall rel abs k M,
+  (0 <= abs)%Q -> NoDup (cell_types M) -> mesh_equal rel abs M (map_corners (rotate k) M) = true.
+Proof. exact start_corner_irrelevant. Qed.
+Print Assumptions C02_start_corner_irrelevant.
+
+Theorem C02_orientation_irrelevant : forall rel abs M,
+  (0 <= abs)%Q -> NoDup (cell_types M) -> mesh_equal rel abs M (map_corners (@rev nat) M) = true.
+Proof. exact orientation_irrelevant. Qed.
+Print Assumptions C02_orientation_irrelevant.
+
+(* the premises are met by a two-block mesh, the rotated mesh is a different value, and another corner SET is told apart *)
+Example C02_corner_order_nonvacuous :
+  let M := {| pts := [[0#1; 0#1]; [1#1; 0#1]; [1#1; 1#1]; [0#1; 1#1]]%Q; cells := [(5, [[0; 1; 2]; [0; 2; 3]]); (3, [[0; 1]])] |} in
+  NoDup (cell_types M) /\
+  mesh_equal (1#1000) (0#1) M (map_corners (rotate 1) M) = true /\
+  map_corners (rotate 1) M <> M /\
+  mesh_equal (1#1000) (0#1) M {| pts := pts M; cells := [(5, [[0; 1; 3]; [0; 2; 3]]); (3, [[0; 1]])] |} = false.
+Proof. exact corner_order_example. Qed.
